@@ -15,8 +15,11 @@ def check(chk, thorough=False):
     chk.run('C16.a', 'R-ORDER', 'for every result appended by apply_bcb the target block data was replaced by the ciphertext of an encryption message built over the target data with the external AAD', lambda ob: c16a(tree, ob), floor=2)
     chk.run('C16.b', 'R-FLOW', 'plaintext release is fail-closed: only a pycose decrypt() result, tested with "is not None" (empty plaintext is legitimate), written back only on acceptance; exceptions fail; failures accumulate', lambda ob: c16b(tree, ob), floor=8)
     chk.run('C16.c', 'sibling', 'the COSE message kinds apply_bcb can emit are the kinds verify_bcb_target handles', lambda ob: c16c(tree, ob), floor=2)
-    chk.run('C16.e', 'R-WHO', 'the verifier binds scope and protected parameters as received (= C03.g)', lambda ob: c03g(tree, ob), floor=7)
+    chk.run('C16.e', 'R-WHO', 'the verifier binds scope and protected parameters as received (= C03.g)', lambda ob: c03g(tree, ob), floor=8)
     chk.run('C16.f', 'R-FRESH', 'one security operation object per target block: what the association hands out is copied anew for every target, so no two targets share (and overwrite) a block number', lambda ob: c16f(tree, ob), floor=2)
+    chk.run('C16.g', 'R-TRUTH', 'the AAD is rebuilt from decoded blocks: decoding keeps every bit of flags and values (= C02.e)', lambda ob: __import__('sa.props.c02', fromlist=['c02e']).c02e(tree, ob), floor=20)
+    chk.run('C16.h', 'R-ORDER', 'confidentiality is undone on the reassembled bundle: the security steps of the receive chain come after reassembly (= C12.a)', lambda ob: __import__('sa.props.c12', fromlist=['c12a']).c12a(tree, ob), floor=4)
+    chk.run('C16.i', 'R-ITER', 'every confidentiality block of a bundle is verified: the loop over them is not invalidated when an accepted block is removed (= C12.e)', lambda ob: __import__('sa.props.c12', fromlist=['c12e']).c12e(tree, ob), floor=2)
     chk.run('C16.d', 'R-FLOW', 'BCB uses the same external AAD construction as BIB (= C03.a/b on apply_bcb)', lambda ob: (c03a(tree, ob, 'apply_bcb'), c03b(tree, ob)), floor=8)
 
 
